@@ -327,6 +327,20 @@ fn check_xml_ids(w: &World) -> Result<(), Violation> {
     Ok(())
 }
 
+/// does the store merge adjacent text at the moment? (two texts appended to a scratch element of
+/// a scratch clone)
+pub fn behavioural_consolidation(x: &xot::Xot) -> bool {
+    let mut s = x.clone();
+    let r = crate::driver::real_call(move || {
+        let n = s.add_name("probe");
+        let e = s.new_element(n);
+        let _ = s.append_text(e, "a");
+        let _ = s.append_text(e, "b");
+        s.children(e).count() == 1
+    });
+    r.unwrap_or(true)
+}
+
 pub struct StepCfg {
     /// check string_value of every Doc/Elem after each successful call
     pub string_values: bool,
@@ -367,6 +381,7 @@ pub fn step_owned(mut w2: World, w: &World, sid: u32, op: &Op, cfg: &StepCfg) ->
     info.cell = cell_of(&w.model, op);
     w2.model.begin_op(sid);
     let pre_model = w2.model.clone();
+    let pre_cons = pre_model.cons;
     let exact = pre_model.exact_text_semantics() || matches!(op, Op::SetConsolidation { .. });
     let pred = op.apply_model(&mut w2.model);
     info.pred = match &pred {
@@ -407,6 +422,15 @@ pub fn step_owned(mut w2: World, w: &World, sid: u32, op: &Op, cfg: &StepCfg) ->
                 ));
                 return fail(w2, info, cfg);
             }
+            // the consolidation switch is store-wide state too: read it behaviourally on a scratch clone
+            if behavioural_consolidation(&w2.xot) != pre_cons {
+                info.violations.push(Violation::new(
+                    "C06",
+                    "state-changed-after-Err",
+                    format!("{} returned Err({}) and left text consolidation switched {} [cell {}]", op.name(), e, if pre_cons { "off" } else { "on" }, info.cell),
+                ));
+                return fail(w2, info, cfg);
+            }
             let before = w.serialise_roots();
             let after = w2.serialise_roots();
             if before != after {
@@ -421,6 +445,16 @@ pub fn step_owned(mut w2: World, w: &World, sid: u32, op: &Op, cfg: &StepCfg) ->
         }
         Outcome::Ok(ret) => {
             info.outcome = "ok";
+            if let Some(n) = ret {
+                if w2.xot.is_removed(n) {
+                    info.violations.push(Violation::new(
+                        "C04",
+                        "removed-node-handed-out",
+                        format!("{} returned the removed node {:?} ({:?}) [cell {}]", op.name(), n, w2.rev.get(&n), info.cell),
+                    ));
+                    return fail(w2, info, cfg);
+                }
+            }
             match pred {
                 Pred::Done(pl) if exact => {
                     if let Err(v) = w2.compare_with_model(ret, pl) {
